@@ -75,7 +75,8 @@ def _observe(job):
     ncol, relations, cfg, seed = job
     from copulas.multivariate import GaussianMultivariate
     rs = np.random.RandomState(seed)
-    df = table(ncol, relations, rs)
+    # most tables have 60 rows; every seventh has 1234 (nothing may depend on the number of rows being small or round)
+    df = table(ncol, relations, rs, n=1234 if seed % 7 == 3 else 60)
     cols = list(df.columns)
     rec = {'kind': 'corr', 'err': '', 'S': S, 'R': [], 'Rref': [], 'const': [bool(df[c].nunique() == 1) for c in cols], 'mineig': 0,
            'labelsOK': True, 'usable': True, 'desc': '%d|%s|%s' % (ncol, ','.join(relations[1:]), cfg)}
